@@ -66,6 +66,8 @@ def is_first4(x, buf):
 
 def is_magic_const(x, magic_bytes):
     x = _strip(x)
+    while x.op == "unsize":
+        x = _strip(x.args[0])
     if x.op == "bytes":
         return bytes(x.args[0]) == bytes(magic_bytes)
     if x.op == "agg" and x.args[0] == "array":
@@ -80,7 +82,29 @@ def magic_truth(facts, buf, magic_bytes):
             a, b = f[1].args[1], f[1].args[2]
             if (is_first4(a, buf) and is_magic_const(b, magic_bytes)) or (is_first4(b, buf) and is_magic_const(a, magic_bytes)):
                 return (f[0] == "true") == (f[1].args[0] == "Eq")
+        # `buf.starts_with(&ELFMAGIC)` (on the buffer or on a view of its first bytes): the first four bytes equal the magic
+        if f[0] in ("true", "false") and f[1].op == "call" and f[1].args[0] == "[T]::starts_with" and len(f[1].args[2]) == 2:
+            x, m = f[1].args[2]
+            if is_magic_const(m, magic_bytes) and _is_prefix_view(x, buf):
+                return f[0] == "true"
     return None
+
+
+def _is_prefix_view(x, buf, depth=0):
+    """x is buf, or a view of buf from its first byte on (get(..n)?, get(0..n)?, first_chunk()?, an unsized array view of those)"""
+    x = _strip(x)
+    while x.op in ("unsize",) and depth < 6:
+        x, depth = _strip(x.args[0]), depth + 1
+    if x is buf:
+        return True
+    if depth < 6 and x.op == "payload" and x.args[1] in ("Some", "Ok") and x.args[0].op == "call":
+        f, a = x.args[0].args[0], x.args[0].args[2]
+        if f == "[T]::first_chunk":
+            return _is_prefix_view(a[0], buf, depth + 1)
+        if f == "[T]::get" and len(a) == 2 and a[1].op == "agg" and a[1].args[1] in ("ops::Range", "ops::RangeTo"):
+            r = a[1].args[4]
+            return (len(r) == 1 or (r[0].op == "const" and r[0].args[1] == 0)) and _is_prefix_view(a[0], buf, depth + 1)
+    return False
 
 
 def run(ctx, rep):
@@ -168,7 +192,8 @@ def run(ctx, rep):
                 if e.op == "agg" and e.args[3] == "BadMagic":
                     arr = e.args[4][0]
                     arr = an.simp(arr, facts)
-                    good = is_first4(arr, p1) and arr.op == "agg" and MT(facts) is False
+                    # the four bytes, as an array built from them or as a copy of the view buf[..4] (copy_from_slice / try_into)
+                    good = is_first4(arr, p1) and MT(facts) is False
                     rep.require(good, "ident", "verify_ident:BadMagic", w, "BadMagic([b0..b3]) iff bytes[0..4] != ELFMAGIC",
                                 "BadMagic outcome: payload %s under magic-equal=%s" % (pp(arr), MT(facts)))
                     seen.add("magic")
@@ -208,6 +233,9 @@ def run(ctx, rep):
                 x, depth = x.args[0], depth + 1
             if x is p1:
                 return True
+            if x.op == "payload" and x.args[1] == "Ok" and x.args[0].op == "call" and len(x.args[0].args[2]) == 1 \
+                    and x.args[0].args[0] in ("convert::TryInto::try_into", "convert::TryFrom::try_from"):
+                return ident_view(x.args[0].args[2][0], depth + 1)      # <&[u8; 16]>::try_from(view)?: the same bytes as an array
             if x.op == "payload" and x.args[1] == "Some" and x.args[0].op == "call":
                 c_ = x.args[0]
                 if c_.args[0] == "[T]::first_chunk" and ident_view(c_.args[2][0], depth + 1):
@@ -256,6 +284,9 @@ def run(ctx, rep):
                     lenlt = T.bin("Lt", T.length(p1), T.const("usize", EI["EI_NIDENT"]), "usize")
                     no_view = any(f[0] == "var" and f[2] == "None" and f[1].op == "call" and ident_view(T.payload(f[1], "Some")) and f[1].args[2][0] is not None
                                   and not (T.payload(f[1], "Some") is p1) for f in facts)        # data.get(..16) / first_chunk::<16>() is None: fewer than 16 bytes
+                    # ... or the (unreachable) failure of converting the exact-length view into an array, reported the same way
+                    no_view = no_view or any(f[0] == "var" and f[2] == "Err" and f[1].op == "call" and len(f[1].args[2]) == 1
+                                             and f[1].args[0] in ("convert::TryInto::try_into", "convert::TryFrom::try_from") and ident_view(f[1].args[2][0]) for f in facts)
                     rep.require(an.truth(facts, lenlt) is True or no_view, "ident", "parse_ident:short", w, "short buffer (< EI_NIDENT) is an error",
                                 "SliceReadError outcome not guarded by len < EI_NIDENT")
                     seen.add("short")
